@@ -4,6 +4,7 @@
 From Coq Require Import List NArith ZArith Bool Arith String.
 Import ListNotations.
 Require Import Scan Pos.
+Require ParseL PT ParserSafe ParserMarks.
 
 (* KIND C09_position_invariant : U *)
 (* after forward n over ANY prefix p (any length, any characters): index grew by |p|, (line, column) are the ones obtained
@@ -27,6 +28,25 @@ Eval vm_compute in "ASSUME:C09_line_counts_breaks"%string. Print Assumptions C09
 Example C09_nonvacuous : advance [97; 13; 10; 65279; 98; 133]%N 99%N 0 0 = (2, 0) /\ count_breaks [97; 13; 10; 65279; 98; 133]%N 99%N = 2.
 Proof. vm_compute. split; reflexivity. Qed.
 
-(* PARTIAL: token_marks_monotone, block_balanced, parser_sound (event grammar for ALL token lists) and span_is_value are
+(* KIND C09_parser_event_marks_ordered : U *)
+(* the parser alone, for EVERY token list (STREAM-START ... single STREAM-END) whose token marks are in text order (each token
+   starts at or after the end of the previous one and ends at or after its own start): every event the parser model delivers
+   has start <= end - including the empty scalars, the collection starts that take their start mark from an anchor or tag
+   token, and the document events that span directives - and the starts of successive events never move backwards *)
+Theorem C09_parser_event_marks_ordered : forall t r, t_kind t = TStreamStart -> PT.toks_ok r -> ParserMarks.ordered 0 (t :: r) ->
+  Forall ParserMarks.ev_ok (fst (ParseL.parse_all (t :: r))) /\ ParserMarks.starts_sorted (fst (ParseL.parse_all (t :: r))).
+Proof. exact ParserMarks.parser_event_marks_ordered. Qed.
+Eval vm_compute in "ASSUME:C09_parser_event_marks_ordered"%string. Print Assumptions C09_parser_event_marks_ordered.
+(* KIND C09_parser_step_marks : U *)
+(* one step, any state satisfying the stack invariant whose remaining tokens are ordered at or after lo: the event (if any)
+   starts at or after lo, ends at or after its start, and the remaining tokens stay ordered at or after the event's start *)
+Theorem C09_parser_step_marks : forall lo s, ParserMarks.InvM lo s ->
+  ParserSafe.wp ParseL.step (fun o s' => match o with
+     | Some e => lo <= ParserMarks.idx (ParseL.e_start e) /\ ParserMarks.ev_ok e /\ ParserMarks.InvM (ParserMarks.idx (ParseL.e_start e)) s'
+     | None => True end) s.
+Proof. exact ParserMarks.step_invM. Qed.
+Eval vm_compute in "ASSUME:C09_parser_step_marks"%string. Print Assumptions C09_parser_step_marks.
+
+(* PARTIAL: token_marks_monotone (scanner), block_balanced, parser_sound (event grammar for ALL token lists) and span_is_value are
    not proved; they are decided by the scan/parse correspondence (every mark compared) and by the direct run that
    recomputes every mark from the text and recognises both grammars (see tools/props/c09.py). *)
